@@ -7,7 +7,8 @@ PROPERTY = "C10"
 LEVEL = "exploration"
 RULE = ("cases = generated coverpoint specifications over bit_t/int_t (w<=8) and enum types: 1-4 entries among bin / "
         "bin_array (count absent, [] , [n] or n), values and list/tuple ranges (overlapping, adjacent, unordered), "
-        "auto-bins with auto_bin_max, ignore/illegal bins, iff by field or callable; each specification is sampled with a "
+        "auto-bins with auto_bin_max, ignore/illegal bins, iff by field or callable, optionally ONE bins dictionary shared by two "
+        "coverpoints; each specification is sampled with a "
         "generated permutation of EVERY value of the type plus repeats, with the iff toggling; after every sample the "
         "per-bin increment vector must equal the reference membership vector.  non-trivial = the specification has an "
         "array/auto partition with a remainder, or an exclusion that removes values from a regular bin, or overlapping "
@@ -101,6 +102,12 @@ def cases(d):
     samples = [[v, (1 if (not iff or d.chance(70)) else 0)] for v in order]
     cg = {"name": "CG", "params": [{"name": "a", "type": t}] + ([{"name": "en", "type": {"kind": "bit", "w": 1}}] if iff else []),
           "options": {"auto_bin_max": abm}, "cps": [cp]}
+    if cp.get("bins") and d.chance(30):
+        # ONE bins dictionary (the same specification objects) given to two coverpoints of the covergroup: building the
+        # first must not change what the second gets
+        cg["pre_lines"] = ["shared = " + cov.dict_src(cp["bins"])]
+        cp["bins_expr"] = "shared"
+        cg["cps"].append(dict(cp, name="cp2"))
     return {"cg": cg, "enums": enums, "samples": samples}
 
 
@@ -130,18 +137,19 @@ def run_case(case, prop=PROPERTY):
     try:
         ns = cov.build([cg], enums)
         o = ns["CG"]()
-        m = cov.cp_model(o, "cp")
+        models = [(c_["name"], cov.cp_model(o, c_["name"])) for c_ in cg["cps"]]
     except Exception as e:
         reset_library()
         return [V("library_exception", "construction: " + exc_sig(e), case, repr(e)[:200])], {}
     info = {"nbins": len(reg)}
-    h = cov.hits(m)
-    if [len(x) for x in h] != [len(reg), len(ign), len(ill)]:
-        return [V("bin_count", "regular/ignore/illegal bin counts differ from the reference", case,
-                  "library %s, reference %s" % ([len(x) for x in h], [len(reg), len(ign), len(ill)]))], info
+    for cname, m in models:
+        h = cov.hits(m)
+        if [len(x) for x in h] != [len(reg), len(ign), len(ill)]:
+            return [V("bin_count", "regular/ignore/illegal bin counts differ from the reference", case,
+                      "coverpoint %s: library %s, reference %s" % (cname, [len(x) for x in h], [len(reg), len(ign), len(ill)]))], info
     has_iff = bool(cp.get("iff"))
     for v, en in case["samples"]:
-        before = cov.hits(m)
+        before = [cov.hits(m) for _, m in models]
         try:
             arg = v
             if t["kind"] == "enum":
@@ -154,16 +162,17 @@ def run_case(case, prop=PROPERTY):
         except Exception as e:
             reset_library()
             return [V("library_exception", "sample: " + exc_sig(e), case, "sample(%r) raised %r" % (v, e))], info
-        after = cov.hits(m)
         gate = en if has_iff else 1
-        for which, ref, b, a in (("regular", reg, before[0], after[0]), ("ignore", ign, before[1], after[1]),
-                                 ("illegal", ill, before[2], after[2])):
-            exp = [(1 if (gate and v in s) else 0) for s in ref]
-            got = [x - y for x, y in zip(a, b)]
-            if got != exp:
-                return [V("count_mismatch", "%s bins" % which, case,
-                          "sample value %d (iff=%d): increments %s, reference %s (reference bins %s)"
-                          % (v, gate, got, exp, [sorted(s) for s in ref]))], info
+        for (cname, m), bef in zip(models, before):
+            after = cov.hits(m)
+            for which, ref, b, a in (("regular", reg, bef[0], after[0]), ("ignore", ign, bef[1], after[1]),
+                                     ("illegal", ill, bef[2], after[2])):
+                exp = [(1 if (gate and v in s) else 0) for s in ref]
+                got = [x - y for x, y in zip(a, b)]
+                if got != exp:
+                    return [V("count_mismatch", "%s bins" % which, case,
+                              "coverpoint %s, sample value %d (iff=%d): increments %s, reference %s (reference bins %s)"
+                              % (cname, v, gate, got, exp, [sorted(s) for s in ref]))], info
     return [], info
 
 
